@@ -15,11 +15,17 @@ def sh(cmd, **kw):
 def main():
     pid, rnd, wt, out, needs = sys.argv[1:6]
     head = sh("git -C %s rev-parse --short HEAD" % wt).stdout.strip()
-    diff = sh("git -C %s diff -- src" % wt).stdout
-    assert diff.strip(), "no source change in the worktree"
+    # the delivered patch is authoritative (worktrees of one repository share the stash stack, and
+    # sub-agents using `git stash` have swapped changes before): reset the worktree to it
     delivered = open(os.path.join(out, "patch.diff")).read()
+    diff = sh("git -C %s diff -- src" % wt).stdout
     if delivered.strip() != diff.strip():
-        print("note: delivered patch differs from the worktree diff; using the worktree diff")
+        print("note: the worktree diff differs from the delivered patch; re-applying the delivered patch")
+        sh("git -C %s checkout -- src" % wt)
+        r = sh("git -C %s apply %s" % (wt, os.path.join(out, "patch.diff")))
+        assert r.returncode == 0, "delivered patch does not apply: " + r.stderr
+        diff = sh("git -C %s diff -- src" % wt).stdout
+    assert diff.strip(), "no source change in the worktree"
     demo = "demo_%s" % pid
     assert os.path.exists(os.path.join(wt, "tests", demo + ".rs")), "no demo in the worktree"
     suite = sh("cd %s && cargo test --offline --lib 2>&1 | tail -3" % wt).stdout
